@@ -180,6 +180,25 @@ class C01:
                                                  "short": rng.choice([0, 1, 17, 60]), "then_crash": True}]
             p["variant"] = {"torn_wal_append": nth}
             yield p
+        # errno faults on the flush / compaction output of that lifetime (EIO, ENOSPC, EACCES on the n-th open, write,
+        # fsync, rename or mkdir of one path class): the operation may fail, the events must stay readable (passive
+        # buffer) and durable (WAL) - in this process and after the restarts that follow
+        evs = [e for e in info["events"] if e[0] > info.get("startup_io", 0)]
+        classes = sorted({(op, pc) for _, op, pc in evs
+                          if op in ("open", "write", "rename", "mkdir", "fsync", "unlink", "rmdir")
+                          and (pc.startswith("seg") or pc in ("segment-dir", "reclaim", "shard-dir"))})
+        rng.shuffle(classes)
+        for op, pc in classes[: (5 if tier == "quick" else 60)]:
+            p = copy.deepcopy(plan)
+            p.pop("id", None)
+            glob = {"segidx-tmp": "*segments.idx.tmp", "segidx": "*segments.idx", "segment-dir": "cols/*/*",
+                    "reclaim": "cols/*/.reclaim*", "shard-dir": "cols/shard-*"}.get(pc, "cols/*/*/*." + pc[4:])
+            p["lifetimes"][li]["io_faults"] = [{"id": f"e-{op}-{pc}", "op": op, "path": glob,
+                                                 "nth": rng.choice([1, 1, 2, 3, 5]), "errno": rng.choice(["EIO", "ENOSPC", "EACCES"])}]
+            p["lifetimes"][li]["fault_after_io"] = info.get("startup_io", 0)
+            p["opts"] = {"faulty": True}
+            p["variant"] = {"errno": f"{op}:{pc}"}
+            yield p
         # a second crash during the recovery that follows a crash (restart lifetime killed at one of its first I/O events)
         if li + 1 < len(plan["lifetimes"]):
             for k in rng.sample(range(1, 30), 2 if tier == "quick" else 10):
@@ -428,13 +447,24 @@ class C05(Base):
             # the compaction lifetime (enumerated)
             h.life(end=rng.choice(["shutdown", "kill"]))
             rounds = rng.randrange(1, 4)
+            gates = ["compact.output_written", "compact.before_commit", "compact.index_saved", "compact.list_updated", "compact.before_reclaim"]
             for r_ in range(rounds):
-                if rng.random() < 0.35:
+                # stratified: every fourth history races a flush against the parked hand-over in its first round, walking
+                # through the five hand-over steps by history index (a small batch must not depend on drawing this by chance)
+                forced = r_ == 0 and i % 4 == 1
+                if forced or rng.random() < 0.35:
                     # park the compactor inside the hand-over and read in that intermediate state
-                    g = rng.choice(["compact.output_written", "compact.before_commit", "compact.index_saved", "compact.list_updated", "compact.before_reclaim"])
+                    g = gates[(i // 4) % 5] if forced else rng.choice(gates)
                     hid = h.hold_next(g)
                     h.compact()
                     h.read_all(tag=f"round{r_}:{g}")
+                    if forced or rng.random() < 0.4:
+                        # a flush publishes a new segment while the hand-over is parked (index read-modify-write race)
+                        for _ in range(rng.randrange(1, 3)):
+                            k = h.new_k()
+                            h.store(rng.choice(types), rng.choice(ctxs), {"k": k, "s": "w"}, k=k)
+                        h.flush()
+                        h.read_all(tag=f"round{r_}:{g}:flushed")
                     h.release(hid)
                     h.barrier()
                 else:
@@ -467,12 +497,15 @@ class C05(Base):
         for k in engine.choose_crash_points(evs, 0, rng, C05.budgets[tier]["crash_limit"]):
             yield engine.crash_variant(plan, li, k)
         # errno faults on compaction output: one variant per (op, path class) seen after start-up
-        classes = sorted({(op, pc) for _, op, pc in evs if op in ("open", "write", "rename", "mkdir", "fsync") and (pc.startswith("seg") or pc in ("segment-dir",))})
+        classes = sorted({(op, pc) for _, op, pc in evs
+                          if op in ("open", "write", "rename", "mkdir", "fsync", "unlink", "rmdir")
+                          and (pc.startswith("seg") or pc in ("segment-dir", "reclaim", "shard-dir"))})
         rng.shuffle(classes)
-        for op, pc in classes[: (4 if tier == "quick" else 40)]:
+        for op, pc in classes[: (6 if tier == "quick" else 60)]:
             p = copy.deepcopy(plan)
             p.pop("id", None)
-            glob = {"segidx-tmp": "*segments.idx.tmp", "segidx": "*segments.idx", "segment-dir": "cols/*/*"}.get(pc, "cols/*/*/*." + pc[4:])
+            glob = {"segidx-tmp": "*segments.idx.tmp", "segidx": "*segments.idx", "segment-dir": "cols/*/*",
+                    "reclaim": "cols/*/.reclaim*", "shard-dir": "cols/shard-*"}.get(pc, "cols/*/*/*." + pc[4:])
             p["lifetimes"][li]["io_faults"] = [{"id": f"e-{op}-{pc}", "op": op, "path": glob,
                                                  "nth": rng.choice([1, 1, 2, 3]), "errno": rng.choice(["EIO", "ENOSPC", "EACCES"])}]
             p["lifetimes"][li]["fault_after_io"] = info.get("startup_io", 0)
